@@ -25,6 +25,10 @@ def prepare(pre, history=False):
             except Unreachable as u:
                 raise IgnoreAttempt(f"pre-state not reachable through public calls: {u}")
         return build(pre, "private")
+    if history or MODE.history_pre:
+        # the symbolic run reached this state through the public calls alone, so the replay does
+        # too, without comparing against a directly installed state
+        return build(pre, "public-unchecked")
     return build(pre, "public")
 
 
